@@ -4,6 +4,7 @@
 From Coq Require Import List NArith ZArith Bool Arith.
 Import ListNotations.
 Require Import Cat Tree Fmt.
+Local Open Scope nat_scope.
 
 Definition cell := (cat * text)%type.                       (* leaf category, word *)
 Definition cell_width (x : cell) : nat := 2 + Nat.max (length (show (fst x))) (length (snd x)).
